@@ -170,6 +170,30 @@ fn gen_spec(rng: &mut Rng, screen: &mut Screen) -> RunSpec {
     k.blank_files = rng.chance(1, 10);
     let root = gen::gen_root(rng);
     gen::gen_tree(rng, screen, &mut world, root, &k);
+    // now and then a directory holds dozens of inert entries (build artefacts, test files) around
+    // its few sources: whatever reads a listing in batches or gives up after a run of ignorable
+    // entries shows here
+    if rng.chance(1, 10) {
+        let mut dirs: Vec<String> = world.dirs().into_iter().filter(|d| *d == root || d.starts_with(&format!("{}/", root))).collect();
+        if dirs.is_empty() {
+            dirs.push(root.to_string());
+        }
+        let d = rng.pick(&dirs).clone();
+        let n = rng.range(33, 90);
+        for i in 0..n {
+            let name = match rng.below(5) {
+                0 => format!("artifact{}.json", i),
+                1 => format!("Case{}.t.sol", i),
+                2 => format!("note{:03}.txt", i),
+                3 => format!("{}.sol.bak", i),
+                _ => format!("zz{}.T.sol", i),
+            };
+            let p = crate::world::join(&d, &name);
+            if !world.nodes.contains_key(&p) {
+                world.put_file(&p, if i % 3 == 0 { vec![0xff, 0xfe, 0x00] } else { b"{}\n".to_vec() }, Fault::None);
+            }
+        }
+    }
     // the inert file may even carry the report's own name, in the analysed directory itself
     if rng.chance(1, 4) {
         let fill = *rng.pick(&INERT_FILLS);
